@@ -12,8 +12,8 @@ copy), shared by C04, C15 and C18 as an extra stream each.
   environ without its `ombott.request.*` cache entries - the body state (`ombott.request.body`,
   `ombott.request.body.error`, `wsgi.input`) is kept, the stream objects cloned at their current
   content - and the two answers must agree.  Out of scope, and skipped exactly there: the recorded
-  stale (property, key) pairs once one was triggered on a request, a header view taken over from
-  the original by `copy()`, `forms`/`files`/`params` after a failed `POST` run.
+  stale (property, key) pairs once one was triggered on a request, and a header view taken over
+  from the original by `copy()`.
 """
 import copy as _copy
 import io
@@ -679,11 +679,6 @@ def excluded(rq, attr):
         h = env.get(CACHE + 'headers')
         if h is not None and h.environ is not env:
             return 'copy-shares-header-view'
-    if attr in ('forms', 'files', 'params'):
-        if (CACHE + 'forms' in env or CACHE + 'files' in env) and CACHE + 'post' not in env:
-            return 'failed-post-leftovers'
-        if attr == 'params' and CACHE + 'params' in env and CACHE + 'post' not in env and CACHE + 'forms' not in env:
-            pass
     return None
 
 
